@@ -457,6 +457,8 @@ func activations(full bool) []Activation {
 		Activation{JDK: "11", OSFamily: "unix"}, Activation{JDK: "11", OSFamily: "windows"}, Activation{JDK: "1.8", OSFamily: "unix"},
 		Activation{OSFamily: "unix", OSName: "linux", OSArch: "amd64"}, Activation{OSFamily: "unix", OSName: "windows"},
 		Activation{Default: true, JDK: "11"}, Activation{Default: true, JDK: "1.8"}, Activation{Default: true, OSFamily: "windows"},
+		Activation{JDK: "!1.8", OSFamily: "windows"}, Activation{JDK: "!1.8", OSFamily: "unix"}, Activation{JDK: "!11", OSFamily: "unix"}, Activation{JDK: "!1.8", OSName: "windows"},
+		Activation{JDK: "[1.8,)", OSFamily: "windows"}, Activation{JDK: "[1.8,)", OSArch: "x86"},
 	)
 	return as
 }
